@@ -13,6 +13,8 @@ type C16Case struct {
 	Versions string `json:"versions,omitempty"`
 	// PreTest: the process first serves once in test mode (and stops), then serves for real
 	PreTest bool `json:"preTest,omitempty"`
+	// PreTestSync: that test-mode serve has ServeTestConfig.SyncStdio set
+	PreTestSync bool `json:"preTestSync,omitempty"`
 	// SockDir: name of a subdirectory (created in the sandbox) handed to the plugin as PLUGIN_UNIX_SOCKET_DIR;
 	// names with characters that are special somewhere (%, spaces, quotes, unicode)
 	SockDir string `json:"sockDir,omitempty"`
